@@ -31,6 +31,16 @@ CHECKS = {
         note="Trusted: Lean kernel; Shape vocabulary and the two readers (parseTsTy+shapeOfTs, parseZod+shapeOfZ), run on every real text; Acc as the meaning of structural acceptance.",
         technique="Lean 4 theorems (mutual structural induction over TypeStructure; inductive acceptance relation) + differential correspondence in both output modes",
     ),
+    "C15": dict(
+        text="Partial: proof that parse_rename's byte-offset arithmetic never slices out of range or inside a character for any token string "
+             "(refinement of the character-level model; the pre-fix arithmetic is refuted by a kernel-checked witness), that the guarded fixed-offset slices of the "
+             "type-string parsers are in range, and that the analysis model does not depend on files that do not parse; the runtime part of the statement "
+             "(syn, tera, recursion depth) is covered by running the real analyser, both generators and the CLI on grammar-generated exotic sources, non-Rust text, "
+             "every .rs file of the repository and the cargo registry and truncations/mutations of them, with caught unwinds and an isolation comparison.",
+        design_ref="DESIGN.md section 7.C15",
+        note="Trusted: Lean kernel; byte-level slicing model B.*; syn/tera/walkdir/stack are runtime and only exercised, not modelled.",
+        technique="Lean 4 theorems (byte-offset refinement by induction on the scan loop; filter lemma for isolation) + corpus/fuzz differential runs with catch_unwind and CLI exit status",
+    ),
     "C04": dict(
         text="Unbounded proof that on every snake_case identifier the tool's default parameter key (serde camelCase field rule) equals the key "
              "Tauri's macro expects (heck lowerCamel), plus the precedence rename > command rename_all > configured default; tied to the code by "
